@@ -45,6 +45,30 @@ func (e *Exec) call(call *ast.CallExpr, c *Ctx, want int) []Term {
 	if c.spec {
 		return []Term{e.specCall(call, c)}
 	}
+	if c.fr.top && c.fr.contract != nil && len(c.fr.contract.OnCall) > 0 && !e.inSpawn {
+		if key, ok := e.callOrd[call]; ok {
+			e.ghostAt(c, key+":before")
+			r := e.call2(call, c, want)
+			e.ghostAt(c, key+":after")
+			return r
+		}
+	}
+	return e.call2(call, c, want)
+}
+
+// ghostAt runs the ghost assignments attached to a call site of the function under verification.
+func (e *Exec) ghostAt(c *Ctx, key string) {
+	as := c.fr.contract.OnCall[key]
+	if len(as) == 0 || c.st.dead() {
+		return
+	}
+	sc := &Ctx{st: c.st, fr: c.fr, spec: true, old: c.fr.entry}
+	for _, a := range as {
+		e.assign(a.LHS, e.eval(a.RHS, sc), sc)
+	}
+}
+
+func (e *Exec) call2(call *ast.CallExpr, c *Ctx, want int) []Term {
 	info := c.fr.info
 	fun := unparen(call.Fun)
 	// conversion
@@ -548,7 +572,15 @@ func (e *Exec) builtin(name string, call *ast.CallExpr, c *Ctx, want int) []Term
 			arr := fmt.Sprintf("((as const (Array Int %s)) %s)", e.Sort(t.Elem), e.Zero(t.Elem).S)
 			return []Term{e.mkSeq(t, arr, n)}
 		case KChan:
-			return []Term{{e.alloc(c.st, "chan"), t}}
+			r := e.alloc(c.st, "chan")
+			capv := "0"
+			if len(call.Args) > 1 {
+				capv = e.eval(call.Args[1], c).S
+			}
+			at := &Type{K: KGMap, Key: tInt, Elem: tInt}
+			ca := e.get(c.st, "H!$chan!cap", at)
+			e.set(c.st, "H!$chan!cap", Term{fmt.Sprintf("(store %s %s %s)", ca.S, r, capv), at})
+			return []Term{{r, t}}
 		}
 	case "new":
 		t := e.prog.TypeOf(c.fr.info.Types[call.Args[0]].Type, c.fr.subst)
@@ -785,8 +817,10 @@ func (e *Exec) inlineLit(fl *ast.FuncLit, args []Term, c *Ctx, want int) []Term 
 	var states []*State
 	for _, r := range rets {
 		// deferred calls of the literal
-		for i := len(fr.defers) - 1; i >= 0; i-- {
-			e.call(fr.defers[i].call, e.ctx(r.st, fr), 0)
+		dl := r.st.defers[fr]
+		delete(r.st.defers, fr)
+		for i := len(dl) - 1; i >= 0; i-- {
+			e.call(dl[i].call, e.ctx(r.st, fr), 0)
 		}
 		for i, v := range r.vals {
 			e.set(r.st, fmt.Sprintf("$ret!%d!%d", fr.depth, i), v)
@@ -1006,7 +1040,7 @@ func (e *Exec) applyContract(ct *Contract, fn *types.Func, sig *types.Signature,
 			e.assume(c.st, fmt.Sprintf("(>= %s 0)", e.seqLen(v)))
 		}
 	}
-	savedSnap := e.lockSnap
+	savedSnap := c.st.lockSnap
 	for _, en := range ct.Ensures {
 		if en.Mode == "seq" && e.mode == "conc" {
 			continue
@@ -1015,12 +1049,12 @@ func (e *Exec) applyContract(ct *Contract, fn *types.Func, sig *types.Signature,
 			if e.mode == "conc" {
 				continue // the callee's acquire-time state is unknown to the caller under interference
 			}
-			e.lockSnap = pre
+			c.st.lockSnap = pre
 		}
 		sc := &Ctx{st: c.st, fr: cfr, spec: true, bound: b2, old: pre}
 		e.assume(c.st, e.evalCond(en.Expr, sc))
 	}
-	e.lockSnap = savedSnap
+	c.st.lockSnap = savedSnap
 	return out
 }
 
@@ -1200,12 +1234,12 @@ func (e *Exec) specCall(call *ast.CallExpr, c *Ctx) Term {
 		case "now":
 			return e.now(c.st)
 		case "atlock":
-			if e.lockSnap == nil {
+			if c.st.lockSnap == nil {
 				e.errorf("%s: atlock() but no lock was acquired", e.curPos)
 				return e.eval(call.Args[0], c)
 			}
 			c2 := *c
-			c2.st = e.lockSnap
+			c2.st = c.st.lockSnap
 			return e.eval(call.Args[0], &c2)
 		case "floormul":
 			a := e.eval(call.Args[0], c)
@@ -1251,7 +1285,8 @@ func (e *Exec) specCall(call *ast.CallExpr, c *Ctx) Term {
 			if se, ok := call.Args[0].(*ast.SelectorExpr); ok {
 				owner := e.eval(se.X, c)
 				h := e.heldArr(c.st, owner.T.Name, se.Sel.Name)
-				return Term{fmt.Sprintf("(select %s %s)", h.S, owner.S), tBool}
+				hw := e.heldArr(c.st, owner.T.Name, se.Sel.Name+"!w")
+				return Term{fmt.Sprintf("(and (select %s %s) (select %s %s))", h.S, owner.S, hw.S, owner.S), tBool}
 			}
 		case "typeis":
 			v := e.eval(call.Args[0], c)
@@ -1275,6 +1310,21 @@ func (e *Exec) specCall(call *ast.CallExpr, c *Ctx) Term {
 			return Term{e.mapVal(c.st, m), &Type{K: KGMap, Key: m.T.Key, Elem: m.T.Elem}}
 		case "smap":
 			// smap(x.f): the (dom, val) view of a sync.Map field: smapdom / smapval
+		case "chcap":
+			ch := e.eval(call.Args[0], c)
+			ca := e.get(c.st, "H!$chan!cap", &Type{K: KGMap, Key: tInt, Elem: tInt})
+			return Term{fmt.Sprintf("(select %s %s)", ca.S, ch.S), tInt}
+		case "parkedrecv":
+			ch := e.eval(call.Args[0], c)
+			e.vc.Decl("fun:parkedrecv", "(declare-fun parkedrecv (Int Int) Bool)")
+			return Term{fmt.Sprintf("(parkedrecv %s %s)", ch.S, e.now(c.st).S), tBool}
+		case "msum":
+			m := e.eval(call.Args[0], c)
+			return Term{e.msumTerm(e.mapDom(c.st, m), e.mapVal(c.st, m), m.T), m.T.Elem}
+		case "msumset":
+			set := e.eval(call.Args[0], c)
+			m := e.eval(call.Args[1], c)
+			return Term{e.msumTerm(set.S, e.mapVal(c.st, m), m.T), m.T.Elem}
 		case "wgcount", "atomicval":
 			owner, fld := e.syncMapOwner(call.Args[0], c)
 			arr := e.get(c.st, "OP!"+fld, &Type{K: KGMap, Key: tInt, Elem: tInt})
